@@ -36,7 +36,7 @@ CMP_NAMES = {ast.Eq: "Eq", ast.NotEq: "NotEq", ast.Lt: "Lt", ast.LtE: "LtE", ast
 NEG_CMP = {"Eq": "NotEq", "NotEq": "Eq", "Lt": "GtE", "GtE": "Lt", "Gt": "LtE", "LtE": "Gt",
            "Is": "IsNot", "IsNot": "Is", "In": "NotIn", "NotIn": "In"}
 
-MAX_INLINE_DEPTH = 3
+MAX_INLINE_DEPTH = 6
 
 
 class Eff:
@@ -102,13 +102,14 @@ class Eff:
 
 
 class Frame:
-    __slots__ = ("fn", "mod", "env", "name")
+    __slots__ = ("fn", "mod", "env", "name", "consteval")
 
-    def __init__(self, fn, mod, env, name):
+    def __init__(self, fn, mod, env, name, consteval=False):
         self.fn = fn
         self.mod = mod
         self.env = env
         self.name = name
+        self.consteval = consteval      # the frame stands for an enclosing scope evaluated at factory time
 
 
 class St:
@@ -118,7 +119,7 @@ class St:
 
     def fork(self):
         o = St.__new__(St)
-        o.frames = [Frame(f.fn, f.mod, dict(f.env), f.name) for f in self.frames]
+        o.frames = [Frame(f.fn, f.mod, dict(f.env), f.name, f.consteval) for f in self.frames]
         o.trace = list(self.trace)
         o.memo = dict(self.memo)
         o.heap = dict(self.heap)
@@ -164,7 +165,7 @@ class HandlerSpec:
     """What the executor needs to know about a handler (built by model.py)."""
 
     def __init__(self, module: Module, fn, event_param: Optional[str], roles=None, bound=None,
-                 other_params=None, label="on_next"):
+                 other_params=None, label="on_next", ctx=None):
         self.module = module
         self.fn = fn
         self.event_param = event_param
@@ -172,6 +173,9 @@ class HandlerSpec:
         self.bound = bound or {}           # param name -> term
         self.other_params = other_params or {}
         self.label = label
+        self.ctx = ctx or {}               # (module name, owner qualname, param) -> term: factory parameters bound by
+        #                                    the in-repository call chain that instantiates a shared operator template
+        self.ctx_key = frozenset(self.ctx.items())
 
     @property
     def qualname(self):
@@ -239,13 +243,19 @@ class Executor:
             return fr.env[name]
         mod = fr.mod
         sc = mod.scopes.get(fr.fn)
-        if sc is not None and name in sc.locals and name not in sc.nonlocals and name not in sc.globals:
-            return ("undef", name)
-        cur = sc.parent if sc is not None else None
-        if sc is not None and name in sc.params:
-            return ("arg", name)
+        if fr.consteval:
+            cur = sc           # the scope itself is an enclosing scope of the handler under analysis
+        else:
+            if sc is not None and name in sc.locals and name not in sc.nonlocals and name not in sc.globals:
+                return ("undef", name)
+            cur = sc.parent if sc is not None else None
+            if sc is not None and name in sc.params:
+                return ("arg", name)
         while cur is not None:
             if name in cur.params:
+                b = self.spec.ctx.get((mod.name, cur.qualname, name))
+                if b is not None:
+                    return b
                 role = self.spec.roles.get((name, cur.qualname))
                 if role is not None:
                     return role
@@ -259,7 +269,7 @@ class Executor:
                     return role
                 if name in cur.defs:
                     return ("func", cur.defs[name], mod)
-                d = self._free_def(mod, cur, name)
+                d = self._free_def(mod, cur, name, st)
                 if d is not None:
                     return d
                 return ("free", name, cur.qualname)
@@ -269,19 +279,54 @@ class Executor:
             return self._global_term(mod, name)
         return ("builtin", name)
 
-    # constants of enclosing scopes: a local of an enclosing function that is assigned exactly once, with a pure
-    # expression over parameters / constants / other such locals (window_span = window - 1, last_branch = n - 1,
-    # is_joined = zip is True or combine is True), is replaced by that expression
-    def _free_def(self, mod, scope, name, depth=0):
+    # constants of enclosing scopes: a local of an enclosing function that is assigned exactly once, unconditionally,
+    # and never rebound by a nested function, with an expression that evaluates -- at factory time, without effects --
+    # to an immutable value (window_span = window - 1, is_joined = zip is True or combine is True, notset = markers.X,
+    # handlers = {rs.OnNextMux: on_item, ...}) is replaced by that value
+    CONST_HEADS = {"const", "param", "func", "lambda", "kindcls", "modvar", "glob", "binop", "unop", "cmp", "boolop", "not",
+                   "tuple", "dict", "partial", "attr", "obs", "fstr", "ifexp", "methodcaller", "attrgetter", "bound"}
+
+    def _free_def(self, mod, scope, name, st, depth=0):
         cache = self.__dict__.setdefault("_free_defs", {})
+        key = (id(scope.node), name, self.spec.ctx_key, tuple(sorted(st.config.items())), id(self.spec.roles))
+        if key in cache:
+            return cache[key]
+        cache[key] = None
+        if depth > 6 or isinstance(scope.node, ast.Lambda) or not hasattr(scope.node, "body"):
+            return None
+        a = self._single_assignment(scope, name)
+        if a is None:
+            return None
+        t = self._const_eval(mod, scope, a.value, st, len(cache))
+        if t is None or not self._immutable(t, True):
+            return None
+        if t[0] == "dict" and self._container_escapes(scope, name):
+            return None
+        cache[key] = t
+        return t
+
+    def _immutable(self, t, top=False):
+        """The value denoted by t cannot change after it was computed (no list / set / object constructed by a call,
+        except library constructors stored in a table literal)."""
+        h = t[0]
+        if h in ("const", "param", "func", "lambda", "kindcls", "modvar", "glob", "obs", "bound", "methodcaller", "attrgetter", "partial"):
+            return True
+        if h in ("binop", "unop", "cmp", "boolop", "not", "ifexp", "fstr"):
+            return all(self._immutable(x) for x in t[1:] if isinstance(x, tuple))
+        if h == "attr":
+            return self._immutable(t[1])
+        if h == "tuple" or (h == "dict" and top):
+            return all(self._immutable(x) or (x[0] == "call" and x[1][0] == "glob") for x in t[1:])
+        return False
+
+    def _single_assignment(self, scope, name):
+        cache = self.__dict__.setdefault("_single_assign", {})
         key = (id(scope.node), name)
         if key in cache:
             return cache[key]
         cache[key] = None
-        if depth > 4:
-            return None
         assigns = []
-        stack = list(scope.node.body) if not isinstance(scope.node, ast.Lambda) else []
+        stack = list(scope.node.body)
         while stack:
             n = stack.pop()
             if isinstance(n, (ast.FunctionDef, ast.AsyncFunctionDef, ast.Lambda, ast.ClassDef)):
@@ -308,45 +353,67 @@ class Executor:
         # only top-level statements of the scope (not under if/for/try) are unconditional
         if assigns[0] not in scope.node.body:
             return None
-        t = self._pure_term(mod, scope, assigns[0].value, depth)
-        cache[key] = t
-        return t
+        cache[key] = assigns[0]
+        return assigns[0]
 
-    def _pure_term(self, mod, scope, node, depth):
-        if isinstance(node, ast.Constant):
-            return const(node.value)
-        if isinstance(node, ast.Name):
-            cur = scope
-            while cur is not None:
-                if node.id in cur.params:
-                    role = self.spec.roles.get((node.id, cur.qualname))
-                    return role if role is not None else ("param", node.id, cur.qualname)
-                if node.id in cur.locals and node.id not in cur.nonlocals:
-                    if node.id in cur.defs:
-                        return None
-                    d = self._free_def(mod, cur, node.id, depth + 1)
-                    return d if d is not None else ("free", node.id, cur.qualname)
-                cur = cur.parent
+    def _container_escapes(self, scope, name):
+        """True if the container bound to *name* may be modified after its construction: an item store / delete, a
+        mutating method, or the container handed to other code (anything but .get / indexing / membership tests)."""
+        parent = {}
+        for n in ast.walk(scope.node):
+            for c in ast.iter_child_nodes(n):
+                parent[c] = n
+        for n in ast.walk(scope.node):
+            if not (isinstance(n, ast.Name) and n.id == name):
+                continue
+            if isinstance(n.ctx, ast.Store):
+                continue
+            p = parent.get(n)
+            if isinstance(p, ast.Subscript) and p.value is n:
+                if isinstance(p.ctx, (ast.Store, ast.Del)):
+                    return True
+                continue
+            if isinstance(p, ast.Attribute) and p.value is n:
+                if p.attr in ("get", "keys", "values", "items", "__contains__"):
+                    continue
+                return True
+            if isinstance(p, ast.Compare) and n in p.comparators:
+                continue
+            return True
+        return False
+
+    def _const_eval(self, mod, scope, node, st, salt):
+        s0 = St.__new__(St)
+        s0.frames = [Frame(scope.node, mod, {}, scope.qualname, True)]
+        s0.trace = []
+        s0.memo = {}
+        s0.heap = {}
+        s0.epoch = 0
+        s0.uid = 100000 + 1000 * salt
+        s0.try_depth = 0
+        s0.loops = {}
+        s0.truncated = False
+        s0.kind = None
+        s0.config = st.config
+        s0.max_iter = 1
+        outs = []
+        try:
+            for s1, t in self.eval(node, s0):
+                outs.append((s1, t))
+                if len(outs) > 1:
+                    return None
+        except AnalysisError:
             return None
-        if isinstance(node, ast.BinOp):
-            a, b = self._pure_term(mod, scope, node.left, depth), self._pure_term(mod, scope, node.right, depth)
-            return None if a is None or b is None else ("binop", type(node.op).__name__, a, b)
-        if isinstance(node, ast.UnaryOp):
-            a = self._pure_term(mod, scope, node.operand, depth)
-            if a is None:
-                return None
-            if isinstance(node.op, ast.Not):
-                return ("not", a)
-            if isinstance(node.op, ast.USub) and a[0] == "const" and isinstance(a[1], (int, float)):
-                return const(-a[1])
-            return ("unop", type(node.op).__name__, a)
-        if isinstance(node, ast.BoolOp):
-            vals = [self._pure_term(mod, scope, v, depth) for v in node.values]
-            return None if any(v is None for v in vals) else ("boolop", "and" if isinstance(node.op, ast.And) else "or") + tuple(vals)
-        if isinstance(node, ast.Compare) and len(node.ops) == 1:
-            a, b = self._pure_term(mod, scope, node.left, depth), self._pure_term(mod, scope, node.comparators[0], depth)
-            return None if a is None or b is None else ("cmp", CMP_NAMES[type(node.ops[0])], a, b)
-        return None
+        if len(outs) != 1 or is_raise(outs[0][1]):
+            return None
+        s1, t = outs[0]
+        for e in s1.trace:
+            if e.k in ("assign", "inline", "inline_exit", "return"):
+                continue
+            if e.k == "call" and e.func[0] == "glob" and t[0] in ("dict", "tuple"):
+                continue        # a library constructor inside a table literal (attrgetter('item'), ...)
+            return None
+        return t
 
     def _global_term(self, mod, dotted):
         ref = self.program.resolve_dotted(mod, dotted)
@@ -805,6 +872,11 @@ class Executor:
     def ex_ListComp(self, node, st):
         """A comprehension is ('comp', text, deps, elt term, (iterable terms...)): the element expression is evaluated
         once with the targets bound to ('compvar', uid, name); effects inside it are not recorded."""
+        if isinstance(node, ast.DictComp):
+            d = self._unroll_dictcomp(node, st)
+            if d is not None:
+                yield st, d
+                return
         base = self._opaque(node, st, "comp")
         try:
             s2 = st.fork()
@@ -833,6 +905,53 @@ class Executor:
             yield st, base
 
     ex_SetComp = ex_DictComp = ex_GeneratorExp = ex_ListComp
+
+    def _unroll_dictcomp(self, node, st):
+        """{k: v for targets in <literal tuple of rows> if cond}: the table is built row by row when every filter is
+        decided (by constants, bound factory parameters or the configuration); None otherwise."""
+        if len(node.generators) != 1 or node.generators[0].is_async:
+            return None
+        g = node.generators[0]
+        try:
+            s2 = st.fork()
+            its = list(self.eval(g.iter, s2))
+            if len(its) != 1 or is_raise(its[0][1]):
+                return None
+            s2, it = its[0]
+            if it[0] not in ("tuple", "list") or any(x[0] == "star" for x in it[1:]):
+                return None
+            keys, vals = [], []
+            n0 = len(s2.trace)
+            for row in it[1:]:
+                outs = list(self._assign(g.target, row, s2, node))
+                if len(outs) != 1 or outs[0][1] is not None:
+                    return None
+                s2 = outs[0][0]
+                keep = True
+                for cond in g.ifs:
+                    bs = list(self.truth(cond, s2))
+                    if len(bs) != 1 or is_raise(bs[0][1]):
+                        return None
+                    s2, b = bs[0]
+                    if not b:
+                        keep = False
+                        break
+                if not keep:
+                    continue
+                kv = list(self.eval_seq([node.key, node.value], s2))
+                if len(kv) != 1 or is_raise(kv[0][1]):
+                    return None
+                s2, (k, v) = kv[0]
+                keys.append(k)
+                vals.append(v)
+            for e in s2.trace[n0:]:
+                if e.k == "call" and e.func[0] == "glob":
+                    st.trace.append(e)
+                elif e.k not in ("assign",):
+                    return None
+            return ("dict",) + tuple(keys) + tuple(vals)
+        except AnalysisError:
+            return None
 
     def ex_Tuple(self, node, st):
         for s1, ts in self.eval_seq(list(node.elts), st):
@@ -892,6 +1011,11 @@ class Executor:
                 yield s1, ts
                 continue
             b, i = ts
+            if b[0] == "dict":
+                hit = self._dict_lookup(b, i, s1)
+                if hit is not None and hit[0]:
+                    yield s1, hit[1]
+                    continue
             if b[0] in ("tuple", "list") and i[0] == "const" and isinstance(i[1], int) and not isinstance(i[1], bool) \
                     and -len(b) + 1 <= i[1] < len(b) - 1 and not any(x[0] == "star" for x in b[1:]):
                 yield s1, b[1 + i[1]] if i[1] >= 0 else b[len(b) + i[1]]
@@ -1074,6 +1198,10 @@ class Executor:
                             if ks is not None:
                                 r = st.kind in ks
                                 return r if op == "In" else (not r)
+            if op in ("In", "NotIn") and b[0] == "dict":
+                hit = self._dict_lookup(b, a, st)
+                if hit is not None:
+                    return hit[0] if op == "In" else (not hit[0])
             # configuration tests
             for x, y in ((a, b), (b, a)):
                 if x[0] == "param" and x[1] in st.config and y[0] == "const" and op in ("Is", "IsNot", "Eq", "NotEq"):
@@ -1181,6 +1309,11 @@ class Executor:
         if attr == "_replace":
             yield st, ("replace", base, tuple(kwargs))
             return
+        if base[0] == "dict" and attr == "get" and args and not kwargs:
+            hit = self._dict_lookup(base, args[0], st)
+            if hit is not None:
+                yield st, (hit[1] if hit[0] else (args[1] if len(args) > 1 else const(None)))
+                return
         if base[0] == "arg" and self.inline:
             # self.method(...) inside a class: inline the sibling method
             meth = self._sibling_method(st, base, attr)
@@ -1223,6 +1356,16 @@ class Executor:
         if h == "partial":
             yield from self.apply_func(node, ft[1], list(ft[2]) + args, kwargs, st)
             return
+        if h == "attr":
+            # a bound method held in a variable (convert = getattr(codec, 'encode'); emit = observer.on_next)
+            yield from self.apply_method(node, ft[1], ft[2], args, kwargs, st)
+            return
+        if h == "methodcaller" and len(args) == 1 and not kwargs:
+            yield from self.apply_method(node, args[0], ft[1], list(ft[2]), [], st)
+            return
+        if h == "attrgetter" and len(args) == 1 and not kwargs:
+            yield st, self._getattr(args[0], ft[1], st)
+            return
         if h == "param":
             uid = st.new_uid()
             res = ("ucall", ft[1], tuple(allargs), uid)
@@ -1264,6 +1407,9 @@ class Executor:
                             yield s1, t
                         return
         if h == "builtin":
+            if ft[1] == "getattr" and len(args) == 2 and not kwargs and args[1][0] == "const" and isinstance(args[1][1], str):
+                yield st, self._getattr(args[0], args[1][1], st)
+                return
             if ft[1] in PURE_BUILTINS:
                 if ft[1] == "len":
                     yield st, ("call", ft, tuple(allargs), ("epoch", st.epoch))
@@ -1277,6 +1423,13 @@ class Executor:
             if ft[1] == "functools.partial" and args:
                 yield st, ("partial", args[0], tuple(args[1:]))
                 return
+            if ft[1] == "operator.methodcaller" and args and args[0][0] == "const" and not kwargs:
+                yield st, ("methodcaller", args[0][1], tuple(args[1:]))
+                return
+            if ft[1] == "operator.attrgetter" and len(args) == 1 and args[0][0] == "const" and not kwargs \
+                    and isinstance(args[0][1], str) and "." not in args[0][1]:
+                yield st, ("attrgetter", args[0][1])
+                return
             last = ft[1].split(".")[-1]
             if last in PURE_BUILTINS and ft[1] in ("array.array", "collections.deque"):
                 yield st, ("call", ft, tuple(allargs), st.new_uid())
@@ -1285,6 +1438,28 @@ class Executor:
         res = ("call", ft, tuple(allargs), uid)
         eff = Eff("call", node, mod, func=ft, args=allargs, result=res, method=None, base=None)
         yield from self._may_raise(st, eff, res)
+
+    def _dict_lookup(self, d, k, st):
+        """(True, value) / (False, None) when the lookup of k in the table d is decided, None otherwise.  Tables keyed
+        by event classes are decided by the event kind of the run, tables keyed by constants by a constant key."""
+        n = (len(d) - 1) // 2
+        keys, vals = d[1:1 + n], d[1 + n:]
+        if k == ("call", ("builtin", "type"), (EV,)) and st.kind is not None and all(x[0] == "kindcls" for x in keys):
+            for x, v in zip(keys, vals):
+                if x[1] == st.kind:
+                    return (True, v)
+            return (False, None)
+        if k[0] == "const" and all(x[0] == "const" for x in keys):
+            for x, v in zip(keys, vals):
+                if x[1] == k[1] and type(x[1]) is type(k[1]):
+                    return (True, v)
+            return (False, None)
+        if k[0] == "kindcls" and all(x[0] == "kindcls" for x in keys):
+            for x, v in zip(keys, vals):
+                if x[1] == k[1]:
+                    return (True, v)
+            return (False, None)
+        return None
 
     def _sibling_method(self, st, base, attr):
         fr = st.frame
